@@ -773,6 +773,19 @@ def histories_shard(ctx: Ctx):
             part.violations.append(Violation("state-not-restored", "C15:history:state-not-restored", f"first pass over the pool: after {n}: {d}",
                                              {"kind": "history", "steps": [{"doc": x, "mode": "exhaust"} for x in env.names[:env.names.index(n) + 1]]}))
             break
+        # deterministic part: every pool document once abandoned and once closed after its first result, then extracted in full (what a consumer that stops
+        # early leaves behind - temp directories, patches, handles - shows in the snapshot; what it leaves in caches shows in the next digest)
+        if ctx.shard == 0:
+            multi = [x for x in env.names if env.base[x].startswith("ok:") and not env.base[x].startswith("ok:0:")]
+            for x in multi:
+                steps = [{"doc": x, "mode": "abandon"}, {"doc": x, "mode": "close"}, {"doc": x, "mode": "exhaust"}]
+                fails = judge_history(env, steps)
+                part.case(digest(["early", x]), True, sample=None, length=0)
+                for c, d in fails[:1]:
+                    part.violations.append(Violation(c, f"C15:history:{c}", d, {"kind": "history", "steps": steps}))
+                if len(part.violations) >= 3:
+                    break
+            part.exhaustive["every pool document abandoned, closed early, then read in full"] = len(multi)
         pair_names = sorted({x for p in PAIRS for x in p})
         doc = st.one_of(st.sampled_from(env.names), st.sampled_from(pair_names))
         step = st.fixed_dictionaries({"doc": doc, "mode": st.sampled_from(["exhaust", "exhaust", "exhaust", "abandon", "close"])})
